@@ -122,6 +122,10 @@ def S.static_text : Nat := 305
 def S.into_raw : Nat := 306
 def range : Nat := 21
 def find : Nat := 118
+def try_get_or_intern : Nat := 235
+def get_or_intern : Nat := 236
+def try_resolve : Nat := 237
+def resolve : Nat := 238
 def get : Nat := 229
 def checked_sub : Nat := 230
 def token : Nat := 231
@@ -630,6 +634,13 @@ def evalMeth (S : Sem) : Nat → Env → Expr → Val → Nat → List Expr → 
     else if m == N.unwrap_or_else then (match rv, args with
       | .ctor c vs, [.closure [] body] =>
         if c == N.Some then (match vs with | [v] => .ok v ρ | _ => .stuck) else if c == N.None then eval S fuel ρ body else .stuck
+      | .ctor c vs, [.closure [p] body] =>
+        -- on a `Result`: the closure receives the error
+        if c == N.Ok then (match vs with | [v] => .ok v ρ | _ => .stuck)
+        else if c == N.Err then (match vs with
+          | [e] => (match matchPat p e ρ with | some ρ' => eval S fuel ρ' body | none => .stuck)
+          | _ => .stuck)
+        else .stuck
       | _, _ => .stuck)
     else if m == N.unwrap_or then (match rv, args with
       | .ctor c vs, [d] =>
